@@ -440,7 +440,15 @@ def audit_graph(expr, check_pickle=True, check_conflicts=True):
             for k, t in layer.items():
                 if k in seen and seen[k][0] != x._name:
                     if _task_sig(seen[k][1]) != _task_sig(t):
-                        problems.append({"symptom": "key-defined-twice-differently", "key": repr(k)[:100], "exprs": [seen[k][0], x._name]})
+                        # a persisted / imported graph (FromGraph) holds the VALUE of a key whose producing task is still
+                        # present elsewhere in the plan: the same key, the same value, no ambiguity
+                        from dask.core import istask
+
+                        a_lit, b_lit = not istask(seen[k][1]), not istask(t)
+                        if a_lit != b_lit and isinstance(seen[k][1] if a_lit else t, (pd.DataFrame, pd.Series, pd.Index)):
+                            stats["materialised_value_aliases"] = stats.get("materialised_value_aliases", 0) + 1
+                        else:
+                            problems.append({"symptom": "key-defined-twice-differently", "key": repr(k)[:100], "exprs": [seen[k][0], x._name]})
                 seen[k] = (x._name, t)
     return problems, stats
 
